@@ -469,6 +469,17 @@ def _unique(ctx):
     mod = index.module(APPCFG)
     gen = mod.functions.get('gen_uniqueid')
     fmt = mod.functions.get('_fmt_unique_name')
+    if fmt is None:
+        # by role: the private formatter the public app_unique_name hands
+        # (name, unique id) to
+        pub = mod.functions.get('app_unique_name')
+        if pub is not None:
+            for sub in ast.walk(pub.raw):
+                if isinstance(sub, ast.Call) and isinstance(
+                        sub.func, ast.Name) and \
+                        sub.func.id in mod.functions and \
+                        len(sub.args) == 2:
+                    fmt = mod.functions[sub.func.id]
     ctx.require(gen is not None and fmt is not None,
                 'appcfg.gen_uniqueid / _fmt_unique_name', rule='C15.2')
     bits = None
